@@ -312,10 +312,11 @@ def unit_finish(U):
 
 def unit_route(U, prefix="C03"):
     """create_db picks the importer by the dialect's fmt / force_gff, default id_spec per format, custom keys forwarded"""
-    for fmt, force_gff, custom in (("gtf", False, False), ("gtf", False, True), ("gtf", True, False), ("gff3", False, False)):
+    for fmt, force_gff, custom, flags in (("gtf", False, False, None), ("gtf", False, True, None), ("gtf", True, False, None), ("gff3", False, False, None),
+                                          ("gtf", False, False, (True, False)), ("gtf", False, False, (False, True))):
         it = Interp()
 
-        def run(ctx, fmt=fmt, force_gff=force_gff, custom=custom):
+        def run(ctx, fmt=fmt, force_gff=force_gff, custom=custom, flags=flags):
             dialect = dict(constants.dialect, fmt=fmt)
             lines, info = PL.make_lines("F")
             tables = PL.GhostTables()
@@ -338,6 +339,8 @@ def unit_route(U, prefix="C03"):
             kw = {"force_gff": force_gff}
             if custom:
                 kw.update(gtf_transcript_key="tx", gtf_gene_key="gn", gtf_subfeature="CDS", id_spec={"gene": "gn"})
+            if flags is not None:
+                kw.update(disable_infer_genes=flags[0], disable_infer_transcripts=flags[1])
             it.call(C.create_db, ["/ghost/in.gff", "/ghost/out.db"], kw)
             return made
         for p in U.explore(run, it):
@@ -350,6 +353,9 @@ def unit_route(U, prefix="C03"):
                 else:
                     ok = c.name == "gff" and c.kw.get("id_spec") == "ID"
                 ok = ok and c.kw.get("checklines") == 0 and isinstance(c.kw.get("data"), IT._BaseIterator) and c.kw.get("dialect", {}).get("fmt") == fmt
+                # the two switches reach the importer as the caller gave them (default: both off), whatever the lines look like
+                want = flags or (False, False)
+                ok = ok and c.kw.get("disable_infer_genes", False) is want[0] and c.kw.get("disable_infer_transcripts", False) is want[1]
             def replay(m, fmt=fmt, force_gff=force_gff, custom=custom):
                 if custom:
                     return {"violates": False, "note": "custom keys: no native replay"}
@@ -364,9 +370,18 @@ def unit_route(U, prefix="C03"):
                     warnings.simplefilter("ignore")
                     db = gffutils.create_db(text, ":memory:", from_string=True, force_gff=force_gff, disable_infer_genes=True, disable_infer_transcripts=True)
                 got = sorted(f.id for f in db.all_features())
+                if got == exp and fmt == "gtf" and not force_gff:
+                    # a file where only SOME genes / transcripts have their own line: the others are still derived
+                    text = ('c\ts\tgene\t1\t90\t.\t+\t.\tgene_id "G1";\nc\ts\ttranscript\t1\t90\t.\t+\t.\tgene_id "G1"; transcript_id "T1";\n'
+                            'c\ts\texon\t5\t20\t.\t+\t.\tgene_id "G1"; transcript_id "T1";\nc\ts\texon\t105\t120\t.\t+\t.\tgene_id "G2"; transcript_id "T2";\n')
+                    exp = ["G1", "G2", "T1", "T2", "exon_1", "exon_2"]
+                    with warnings.catch_warnings():
+                        warnings.simplefilter("ignore")
+                        db = gffutils.create_db(text, ":memory:", from_string=True)
+                    got = sorted(f.id for f in db.all_features())
                 return {"inputs": {"text": text, "force_gff": force_gff}, "expected": exp, "observed": got, "violates": got != exp}
-            U.prove("%s.create_db.route[%s,force_gff=%s,custom=%s]#p%d" % (prefix, fmt, force_gff, custom, p.index),
-                    "the GTF importer is used iff the dialect's fmt is 'gtf' and not force_gff, with the default id_spec {gene: gene_id, transcript: transcript_id} (GFF3: 'ID') and the custom keys/subfeature forwarded",
+            U.prove("%s.create_db.route[%s,force_gff=%s,custom=%s%s]#p%d" % (prefix, fmt, force_gff, custom, "" if flags is None else ",disable=%s/%s" % flags, p.index),
+                    "the GTF importer is used iff the dialect's fmt is 'gtf' and not force_gff, with the default id_spec {gene: gene_id, transcript: transcript_id} (GFF3: 'ID'), the custom keys/subfeature forwarded and disable_infer_genes / disable_infer_transcripts passed on exactly as given (default off)",
                     [], z3.BoolVal(bool(ok)), {}, replay=replay)
 
 
